@@ -8,8 +8,10 @@ package vsched
 
 import (
 	"fmt"
+	"os"
 	"runtime/debug"
 	"strings"
+	"sync"
 	"time"
 	"unsafe"
 )
@@ -97,12 +99,32 @@ func Point(kind Kind, obj uintptr, val interface{}) Answer {
 // spawn is a scheduling point of the spawning thread and the new thread first stops at its own start point.
 func Go(body func()) {
 	if !isActive() {
-		go body()
+		// started outside an exploration (set-up, warm-up, checks at quiescence): a real goroutine, joined before the
+		// next execution starts so that it cannot issue hooked operations in the middle of it
+		outside.Add(1)
+		go func() {
+			defer outside.Done()
+			body()
+		}()
 		return
 	}
 	tok := new(byte)
 	RaceRelease(unsafe.Pointer(tok)) // what the spawner did so far happens before the new thread
 	Point(KSpawn, 0, spawnReq{body, tok})
+}
+
+var outside sync.WaitGroup
+
+// joinOutside waits (bounded) for goroutines the code under test started while no exploration was active.
+func joinOutside() {
+	done := make(chan struct{})
+	go func() { outside.Wait(); close(done) }()
+	select {
+	case <-done:
+	case <-time.After(20 * time.Second):
+		os.Stderr.WriteString("HARNESS-ERROR: a goroutine started by the code under test outside an exploration did not finish within 20 s\n")
+		os.Exit(3)
+	}
 }
 
 type spawnReq struct {
@@ -266,6 +288,7 @@ func (e *Explorer) run(prefix []int) *Exec {
 		}
 	}
 	resetClock()
+	joinOutside()
 	setActive(true)
 	var launchErr bool
 	launch := func(i int, body func(), startTok *byte) *thread {
@@ -500,6 +523,10 @@ func (e *Explorer) run(prefix []int) *Exec {
 		e.res.Steps++
 		if x.Hang { // a spawned thread did not reach its start point
 			break
+		}
+		if r.reply == nil {
+			fmt.Fprintf(os.Stderr, "HARNESS-ERROR: scheduler picked T%d without a pending request (kind=%v done=%v hasPend=%v); trace %s\n", t.id, r.kind, t.done, t.hasPend, x.TraceString())
+			os.Exit(3)
 		}
 		raceDisable()
 		r.reply <- ans
